@@ -180,6 +180,10 @@ func (e *Engine) load(st *State, p PtrV, pos token.Pos) Value {
 		if v, ok := st.globals[p.Global]; ok {
 			return getPath(v, p.Path)
 		}
+		if cv, ok := e.constGlobal(p.Global); ok {
+			st.globals[p.Global] = cv
+			return getPath(cv, p.Path)
+		}
 		v, facts := freshValue("g:"+p.Global.Name(), p.Global.Type().(*types.Pointer).Elem())
 		// globals are named deterministically so that they agree across paths
 		ls := leavesOf(p.Global.Type().(*types.Pointer).Elem())
@@ -814,4 +818,77 @@ func (e *Engine) elemArr(st *State, s SliceV) *smt.Term {
 		return smt.Select(smt.Var(fmt.Sprintf("%s@%d", name, 0), smt.IIArr), s.Arr)
 	}
 	return smt.Select(st.heap(name, smt.IIArr), s.Arr)
+}
+
+// constGlobal: a package-level variable that is initialised with a constant
+// in the package initialiser and never assigned anywhere else in the package
+// is treated as that constant (unexported variables only: no other package can write them).
+func (e *Engine) constGlobal(g *ssa.Global) (Value, bool) {
+	if v, ok := e.constGlobals[g]; ok {
+		return v, v != nil
+	}
+	e.constGlobals[g] = nil
+	if g.Object() == nil || g.Object().Exported() || g.Pkg == nil {
+		return nil, false
+	}
+	var initVal *ssa.Const
+	stores := 0
+	for _, m := range g.Pkg.Members {
+		fn, ok := m.(*ssa.Function)
+		if !ok {
+			continue
+		}
+		var visit func(f *ssa.Function)
+		visit = func(f *ssa.Function) {
+			for _, b := range f.Blocks {
+				for _, in := range b.Instrs {
+					if s, ok := in.(*ssa.Store); ok && s.Addr == g {
+						stores++
+						if c, ok := s.Val.(*ssa.Const); ok && f.Name() == "init" {
+							initVal = c
+						}
+					}
+					// address taken otherwise (passed around): give up
+					if _, isStore := in.(*ssa.Store); !isStore {
+						for _, op := range in.Operands(nil) {
+							if *op == ssa.Value(g) {
+								if _, isLoad := in.(*ssa.UnOp); !isLoad {
+									stores += 2
+								}
+							}
+						}
+					}
+				}
+			}
+			for _, af := range f.AnonFuncs {
+				visit(af)
+			}
+		}
+		visit(fn)
+	}
+	// methods
+	for _, m := range g.Pkg.Members {
+		if t, ok := m.(*ssa.Type); ok {
+			for _, tt := range []types.Type{t.Type(), types.NewPointer(t.Type())} {
+				ms := e.Prog.MethodSets.MethodSet(tt)
+				for i := 0; i < ms.Len(); i++ {
+					if f := e.Prog.MethodValue(ms.At(i)); f != nil && f.Pkg == g.Pkg {
+						for _, b := range f.Blocks {
+							for _, in := range b.Instrs {
+								if s, ok := in.(*ssa.Store); ok && s.Addr == g {
+									stores += 2
+								}
+							}
+						}
+					}
+				}
+			}
+		}
+	}
+	if stores == 1 && initVal != nil {
+		v := e.constValue(initVal)
+		e.constGlobals[g] = v
+		return v, true
+	}
+	return nil, false
 }
